@@ -178,19 +178,15 @@ template <class F> static Outcome1 guarded(F f) { Outcome1 o; try { f(o); } catc
 // ------------------------------------------------------------------------------------------------ the property
 static void prop_capi(Tape &t, Ctx &c) {
     // system: int indices, n <= 300, rows optionally unsorted; replacement matrix on the same graph with other coefficients
-    vf::Graph g = vf::gen_graph(t, 300, 0, 8);
-    if (g.n < 20) { // chain copies of a small graph
-        int r = (20 + g.n - 1) / g.n, n0 = g.n; vf::Graph h; h.family = g.family + "*" + std::to_string(r); h.n = n0 * r;
-        for (int k = 0; k < r; ++k) { for (auto &e : g.edges) h.edges.push_back(std::make_pair(e.first + k * n0, e.second + k * n0)); if (k + 1 < r) h.edges.push_back(std::make_pair(k * n0 + n0 - 1, (k + 1) * n0)); }
-        std::sort(h.edges.begin(), h.edges.end()); h.axis.assign(h.edges.size(), -1); g = h;
-    }
-    vf::Csr<double> A = vf::gen_mmat(t, g, 10.0, false), A2 = vf::gen_mmat(t, g, 10.0, false);
-    bool unsorted = t.b() && vf::shuffle_rows(t, A);
-    if (t.b()) vf::shuffle_rows(t, A2);
+    Tape st = derived_tape(t); // the system is decoded from a derived tape (see c14_equiv.hpp): short case tapes, fast shrinking
+    vf::Graph g = gen_graph_min(st, 300, 20);
+    vf::Csr<double> A = vf::gen_mmat(st, g, 10.0, false), A2 = vf::gen_mmat(st, g, 10.0, false);
+    bool unsorted = st.b() && vf::shuffle_rows(st, A);
+    if (st.b()) vf::shuffle_rows(st, A2);
     const int n = static_cast<int>(A.n);
-    std::vector<double> rhs = vf::gen_vec(t, n, static_cast<int>(t.u(0, 2)));
+    std::vector<double> rhs = vf::gen_vec(st, n, static_cast<int>(st.u(0, 2)));
     { bool nz = false; for (double v : rhs) nz = nz || v != 0; if (!nz) rhs[0] = 1.0; }
-    std::vector<double> x0 = t.b() ? vf::gen_vec(t, n, 2) : std::vector<double>(n, 0.0);
+    std::vector<double> x0 = st.b() ? vf::gen_vec(st, n, 2) : std::vector<double>(n, 0.0);
 
     // parameters: values for the run-time composite behind the C interface, all expressible as text
     bool null_handle = t.chance(1, 12); // NULL parameter handle: library defaults
@@ -249,6 +245,7 @@ static void prop_capi(Tape &t, Ctx &c) {
     c.label(unsorted ? "rows:unsorted" : "rows:sorted");
     c.label(n < 60 ? "n:20-59" : n < 150 ? "n:60-149" : "n:150-300");
     for (auto &op : ps.ops) if (op.kind == 'f') { c.label("has-setf"); break; }
+    for (double v : ref_apply.x) if (v != v) { c.label("result:nan"); break; }
 
     // ---- the C interface on exact-size heap blocks
     CMatrix M(n, ptr, col, A.val), M2(n, ptr2, col2, A2.val), Mf(n, plus1(ptr), plus1(col), A.val), M2f(n, plus1(ptr2), plus1(col2), A2.val);
@@ -312,6 +309,7 @@ static void prop_capi(Tape &t, Ctx &c) {
     }
     VF_REQUIRE(M.unchanged() && M2.unchanged() && Mf.unchanged() && M2f.unchanged(), "the C interface modified a matrix array passed as const");
     VF_REQUIRE(brhs.unchanged(), "the C interface modified the right-hand side");
+    find_case(c);
 }
 
 // parameter handles alone: every setter stores the documented text (observed through a solver that is built from it, see prop_capi),
@@ -325,12 +323,13 @@ static void prop_params_lifecycle(Tape &t, Ctx &c) {
     }
     amgcl_params_destroy(h);
     c.desc << "params create/" << k << " setters/destroy";
-    c.nontrivial = k >= 2;
+    c.nontrivial = false; // life-cycle only (leak check in the ASan twin); not counted as a non-trivial C20 case
+    c.label("lifecycle");
 }
 
 static std::vector<Prop> props() {
     return {
-        Prop("capi", prop_capi, 220, 3000, 100, 60, {1}, 4, 8),
+        Prop("capi", prop_capi, 220, 3000, 100, 3, {1}, 4, 8),
         Prop("params_lifecycle", prop_params_lifecycle, 200, 1000, 100, 1, {1}, 1, 1),
     };
 }
